@@ -68,8 +68,24 @@ func newP2P(dir string) (*p2p.P2P, crypto.PrivateKeyI) {
 var pa, pb *p2p.P2P
 var ka, kb crypto.PrivateKeyI
 
+// gatedConn lets the driver hold back A's writes for a moment (a slow link): the send queues fill up meanwhile
+type gatedConn struct {
+	net.Conn
+	mu sync.RWMutex
+}
+
+func (g *gatedConn) Write(b []byte) (int, error) {
+	g.mu.RLock()
+	defer g.mu.RUnlock()
+	return g.Conn.Write(b)
+}
+
+var lastGate *gatedConn
+
 func pair(tmp string) (*side, *side, error) {
-	c1, c2 := net.Pipe()
+	p1, c2 := net.Pipe()
+	c1 := &gatedConn{Conn: p1}
+	lastGate = c1
 	a, b := &side{p: pa, key: ka, dir: "ab"}, &side{p: pb, key: kb, dir: "ba"}
 	var ea, eb lib.ErrorI
 	var wg sync.WaitGroup
@@ -155,7 +171,7 @@ func drain(p *p2p.P2P, from crypto.PrivateKeyI, dir string, want int, idle time.
 	return got
 }
 
-func concurrentCase(rng *rand.Rand, a, b *side, big bool, out func(Ev)) {
+func concurrentCase(rng *rand.Rand, a, b *side, big bool, pressure bool, out func(Ev)) {
 	small := []int{8, 9, 100, 1000, 4096, 65536}
 	bigs := []int{chunk - 1, chunk, chunk + 1, 2*chunk - 1, 2 * chunk, 2*chunk + 1, 3*chunk + 7}
 	id := 0
@@ -169,6 +185,31 @@ func concurrentCase(rng *rand.Rand, a, b *side, big bool, out func(Ev)) {
 	}
 	var jobs [][]job
 	for _, s := range []*side{a, b} {
+		if pressure {
+			// one topic, its send queue kept full by a stream of small messages while several goroutines send messages of two
+			// and three packets on it: every packet of theirs has to wait for room in the queue
+			if s == b {
+				continue
+			}
+			t := topics[rng.Intn(len(topics))]
+			var js []job
+			for m := 0; m < 1500; m++ {
+				id++
+				js = append(js, job{s, t, id, 64})
+				want[s.dir]++
+			}
+			jobs = append(jobs, js)
+			for w := 0; w < 6; w++ {
+				js = nil
+				for m := 0; m < 3; m++ {
+					id++
+					js = append(js, job{s, t, id, bigs[3+rng.Intn(4)]})
+					want[s.dir]++
+				}
+				jobs = append(jobs, js)
+			}
+			continue
+		}
 		W := 2 + rng.Intn(5)
 		for w := 0; w < W; w++ {
 			var js []job
@@ -191,6 +232,10 @@ func concurrentCase(rng *rand.Rand, a, b *side, big bool, out func(Ev)) {
 		out(Ev{E: "send", Dir: s.dir, Id: 0, Topic: int(lib.Topic_TX), Len: 0, N: 1, Ok: ok})
 		want[s.dir]++
 	}
+	if pressure { // the link stalls for a moment while everybody starts sending
+		lastGate.mu.Lock()
+		go func(g *gatedConn) { time.Sleep(150 * time.Millisecond); g.mu.Unlock() }(lastGate)
+	}
 	for _, js := range jobs {
 		wg.Add(1)
 		go func(js []job) {
@@ -207,7 +252,11 @@ func concurrentCase(rng *rand.Rand, a, b *side, big bool, out func(Ev)) {
 	dg.Add(2)
 	locked := func(e Ev) { mu.Lock(); out(e); mu.Unlock() }
 	var ga, gb int
-	go func() { defer dg.Done(); gb = drain(b.p, a.key, "ab", want["ab"], 3*time.Second, locked) }()
+	wait := 3 * time.Second
+	if pressure {
+		wait = 8 * time.Second
+	}
+	go func() { defer dg.Done(); gb = drain(b.p, a.key, "ab", want["ab"], wait, locked) }()
 	go func() { defer dg.Done(); ga = drain(a.p, b.key, "ba", want["ba"], 3*time.Second, locked) }()
 	wg.Wait()
 	dg.Wait()
@@ -510,7 +559,7 @@ func main() {
 			fail(err)
 		}
 		if kind == "concurrent" {
-			concurrentCase(rng, a, b, big, out)
+			concurrentCase(rng, a, b, big, c%4 == 1, out)
 		} else {
 			fullInboxCase(rng, a, b, out)
 		}
